@@ -114,6 +114,15 @@ func C17(c *run.Ctx) {
 			cfg.PushedAuthorizeRequestURIPrefix = prefix
 			cfg.PushedAuthorizeContextLifespan = life
 		}})
+		// round 8 (C17-T): a third of the worlds also register, for every client of the cast, a DIFFERENT client whose id
+		// differs in letter case only and which has the same redirect URIs registered; such a twin is one of the wrong clients
+		twins := gi%3 == 0
+		if twins {
+			for _, sp := range world.DefaultClients() {
+				sp.ID = strings.ToUpper(sp.ID)
+				w.AddClient(sp)
+			}
+		}
 		effPrefix := prefix
 		if effPrefix == "" {
 			effPrefix = "urn:ietf:params:oauth:request_uri:"
@@ -253,6 +262,10 @@ func C17(c *run.Ctx) {
 			field := ""
 			if kind == "wrong-client" {
 				as = pick(r, removeStr([]string{"conf-a", "conf-b", "pub-c", "rich-d"}, p.client))
+				if twins && (s+gi)%2 == 0 {
+					as = strings.ToUpper(p.client) // decided without the generator, so that the other steps of the history stay as they were
+					c.Count("c17_case_twin_attempts", 1)
+				}
 			}
 			if kind == "right-with-conflicts" {
 				field = pick(r, []string{"redirect_uri", "response_type", "response_mode", "scope", "state", "audience", "custom_param", "nonce"})
